@@ -8,6 +8,15 @@ from ..impl_util import hash_of_id, mk_env
 from ..runner import Ctx, Unit
 from ..val import Err
 
+MANIFEST = {
+    "text": "Coq theorems over the statement-level translation of compute_l2_key regenerated from _gkdi.py on every run, for an arbitrary KDF and key type: from every conforming envelope "
+            "covering an in-range request the result is the MS-GKDI chain key K2(l1,l2) (all 2^20 position pairs, all shapes, any root key/SD/L0/hash; fuel 32 suffices = termination); "
+            "a non-covering or out-of-range request is ValueError for every fuel (neither a key nor a loop). Tie: the control skeleton is translated from the source; compute_kdf_context / "
+            "compute_l1_key / kdf argument shapes by correspondence under the symbolic KDF (output bytes are derivation terms).",
+    "note": "kdf is universally quantified; the statement translator of compute_l2_key is trusted and validated by the correspondence unit chain.l2.",
+    "technique": "Coq proof (loop invariants over regenerated control skeleton) + differential correspondence under symbolic crypto",
+}
+
 ASSUMPTIONS = [
     "kdf is an arbitrary function (theorems quantify over it); the correspondence runs use the symbolic KDF so output bytes are derivation terms",
     "statement translator of vlib/kernels.py (assign/if/while/raise/return, kdf(...) call shape) for compute_l2_key",
